@@ -780,6 +780,11 @@ func CheckC19(run *Run) {
 			if required[jn] != f.Rules.Required {
 				notes = append(notes, fmt.Sprintf("required listed=%v, rules require=%v", required[jn], f.Rules.Required))
 			}
+			if f.Rules.WellKnownOff != "" && f.Kind == "string" && f.Card != "repeated" && f.Card != "map" {
+				if got, has := oasMap(emitted)["format"]; has {
+					notes = append(notes, fmt.Sprintf("well-known rule %s: false (which demands nothing) published as format %q", f.Rules.WellKnownOff, fmt.Sprint(got)))
+				}
+			}
 			if f.Rules.WellKnown != "" && f.Kind == "string" && f.Card != "repeated" && f.Card != "map" {
 				if got := fmt.Sprint(oasMap(emitted)["format"]); got != f.Rules.WellKnown {
 					notes = append(notes, fmt.Sprintf("well-known rule %s published as format %q", f.Rules.WellKnown, got))
